@@ -358,6 +358,89 @@ theorem C20_refused_changes_nothing {Rep} (e : EnvSpec) (o : OuterSpec Rep) (m :
   · intro i a s err ha hs h; simp [gymStep, ha, Machine.exec, hs, h]
   · intro i a ha hs; simp [gymStep, ha, Machine.exec, hs]
 
+/-! ### the adapter has no state of its own: trace inclusion into the inner interface -/
+
+theorem Machine.run_append (e : EnvSpec) (m : Machine) (l1 l2 : List Op) :
+    (Machine.run e m (l1 ++ l2)).1 = (Machine.run e (Machine.run e m l1).1 l2).1 := by
+  induction l1 generalizing m with
+  | nil => rfl
+  | cons op l1 ih => simp only [List.cons_append, Machine.run]; exact ih _
+
+theorem gymReset_reach {Rep} (e : EnvSpec) (o : OuterSpec Rep) (m : Machine) :
+    (gymReset e o m).1 = (Machine.run e m [.reset]).1 ∨
+    (gymReset e o m).1 = (Machine.run e m [.reset, .readObs]).1 := by
+  simp only [gymReset, Machine.run]
+  split
+  · rename_i m' err hx; left; rw [hx]
+  · rename_i m' out _ hx
+    rw [hx]
+    have h := outerObs_machine e o m'
+    split <;> (rename_i hy; rw [hy] at h; simp only at h ⊢; rcases h with h | h <;> simp [h])
+
+theorem gymStep_reach {Rep} (e : EnvSpec) (o : OuterSpec Rep) (m : Machine) (i : Int) :
+    (gymStep e o m i).1 = m ∨ ∃ a, e.actions.intToAction i = .ok a ∧
+      ((gymStep e o m i).1 = (Machine.run e m [.step a]).1 ∨
+       (gymStep e o m i).1 = (Machine.run e m [.step a, .readObs]).1) := by
+  simp only [gymStep, Machine.run]
+  split
+  · left; rfl
+  · rename_i a ha
+    right
+    refine ⟨a, ha, ?_⟩
+    split
+    · rename_i m' r t hx
+      rw [hx]
+      have h := outerObs_machine e o m'
+      split <;> (rename_i hy; rw [hy] at h; simp only at h ⊢; rcases h with h | h <;> simp [h])
+    · rename_i m' err hx; left; rw [hx]
+    · rename_i m' out _ _ hx; left; rw [hx]
+
+/-- every machine a gym history reaches is reached by a history of the inner interface that uses
+only `reset`, `step` (with actions of the action space) and `readObs`: the adapter and the state
+wrapper keep nothing of their own between calls -/
+theorem C20_trace_inclusion {Rep} (e : EnvSpec) (o : OuterSpec Rep) (m : Machine) (ops : List GymOp) :
+    ∃ l : List Op, (gymRun e o m ops).1 = (Machine.run e m l).1 ∧
+      ∀ op ∈ l, op = .reset ∨ op = .readObs ∨ ∃ i a, e.actions.intToAction i = .ok a ∧ op = .step a := by
+  induction ops generalizing m with
+  | nil => exact ⟨[], rfl, by simp⟩
+  | cons op ops ih =>
+    have one : ∃ l1 : List Op, (gymExec e o m op).1 = (Machine.run e m l1).1 ∧
+        ∀ op ∈ l1, op = .reset ∨ op = .readObs ∨ ∃ i a, e.actions.intToAction i = .ok a ∧ op = .step a := by
+      have hr : ∃ l1 : List Op, (gymReset e o m).1 = (Machine.run e m l1).1 ∧
+          ∀ op ∈ l1, op = .reset ∨ op = .readObs ∨ ∃ i a, e.actions.intToAction i = .ok a ∧ op = .step a := by
+        rcases gymReset_reach e o m with h | h
+        · exact ⟨_, h, by simp⟩
+        · exact ⟨_, h, by simp⟩
+      have hs : ∀ i, ∃ l1 : List Op, (gymStep e o m i).1 = (Machine.run e m l1).1 ∧
+          ∀ op ∈ l1, op = .reset ∨ op = .readObs ∨ ∃ i a, e.actions.intToAction i = .ok a ∧ op = .step a := by
+        intro i
+        rcases gymStep_reach e o m i with h | ⟨a, ha, h | h⟩
+        · exact ⟨[], h, by simp⟩
+        · refine ⟨_, h, ?_⟩
+          intro op hop
+          simp only [List.mem_singleton] at hop
+          exact .inr (.inr ⟨i, a, ha, hop⟩)
+        · refine ⟨_, h, ?_⟩
+          intro op hop
+          simp only [List.mem_cons, List.not_mem_nil, or_false] at hop
+          rcases hop with hop | hop
+          · exact .inr (.inr ⟨i, a, ha, hop⟩)
+          · exact .inr (.inl hop)
+      cases op with
+      | reset => exact hr
+      | step i => exact hs i
+      | stateReset => simp only [gymExec]; rw [(C20_state_wrapper_same_machine e o m).1]; exact hr
+      | stateStep i => simp only [gymExec]; rw [(C20_state_wrapper_same_machine e o m).2 i]; exact hs i
+    obtain ⟨l1, h1, p1⟩ := one
+    obtain ⟨l2, h2, p2⟩ := ih (gymExec e o m op).1
+    refine ⟨l1 ++ l2, ?_, ?_⟩
+    · simp only [gymRun]
+      rw [h2, h1, Machine.run_append]
+    · intro op hop
+      rcases List.mem_append.mp hop with h | h
+      · exact p1 op h
+      · exact p2 op h
+
 /-! ### non-vacuity: a concrete environment, a history with a refused call in the middle -/
 section
 private def exEnv : EnvSpec := {
